@@ -19,8 +19,39 @@ pub struct BigramOut {
     pub cost: String,
 }
 
-/// Trains a model (single-threaded). `Err` carries a description; panics are converted.
+/// Message of the error returned when a training run does not come back in time.
+pub const TRAINING_TIMEOUT: &str = "training did not terminate";
+
+/// Returns true (and counts) if `e` is the training time-out: the optimiser's backtracking line
+/// search (argmin, used by rucrf) has no iteration limit and loops forever on a few generated
+/// configurations. Such a configuration is outside "training succeeds"; the case is skipped.
+pub fn is_timeout(e: &str, ctx: &mut crate::engine::Ctx) -> bool {
+    if e.contains(TRAINING_TIMEOUT) {
+        ctx.count("skipped_training_did_not_terminate", 1);
+        true
+    } else {
+        false
+    }
+}
+
+/// Trains a model (single-threaded) on a helper thread with a time limit: a run that does not
+/// finish within 30 s is abandoned (the thread is leaked; it ends with the process).
 pub fn train(spec: &TrainSpec, with_user: bool) -> Result<Model, String> {
+    let spec2 = spec.clone();
+    let (tx, rx) = std::sync::mpsc::channel();
+    std::thread::Builder::new()
+        .name("training".into())
+        .spawn(move || {
+            let _ = tx.send(train_inner(&spec2, with_user));
+        })
+        .map_err(|e| format!("cannot spawn the training thread: {e}"))?;
+    match rx.recv_timeout(std::time::Duration::from_secs(30)) {
+        Ok(r) => r,
+        Err(_) => Err(format!("{TRAINING_TIMEOUT} within 30 s (skipped)")),
+    }
+}
+
+fn train_inner(spec: &TrainSpec, with_user: bool) -> Result<Model, String> {
     let r = guard(|| -> Result<Model, String> {
         let config = TrainerConfig::from_readers(
             spec.lex_csv().as_bytes(),
